@@ -291,12 +291,15 @@ def corr_sample_lines(ctx):
             UG.pycmsgen, UG.pyunigen = real_cms, real_uni
 
 
-def gen_reqs(rng, nv):
+def gen_reqs(rng, nv, repeats=False):
     reqs = []
     for _ in range(rng.randint(0, 3)):
         n = rng.randint(1, nv)
-        reqs.append({"rel": rng.choice(["EQ", "LT", "GT"]), "k": rng.randint(0, n + 1),
-                     "vars": sorted(rng.sample(range(1, nv + 1), n))})
+        vs = sorted(rng.sample(range(1, nv + 1), n))
+        if repeats and rng.random() < 0.3:
+            # a request may name a variable twice: it then counts twice, in the clauses and in the OPB row alike
+            vs.insert(rng.randrange(len(vs) + 1), rng.choice(vs))
+        reqs.append({"rel": rng.choice(["EQ", "LT", "GT"]), "k": rng.randint(0, len(vs) + 1), "vars": vs})
     return reqs
 
 
@@ -505,7 +508,7 @@ def oracle_c28(ctx, budget_s):
             for cl in vals:
                 if rng.random() < 0.3:          # repeated literal (also a negated one) inside a clause
                     cl.insert(rng.randrange(len(cl) + 1), rng.choice(cl))
-            reqs = gen_reqs(rng, nv)
+            reqs = gen_reqs(rng, nv, repeats=True)
             sol = gen_lits(rng, rng.randint(1, nv), nv)
             r = c28_case(vals, reqs, nv, tmp, sol)
             ctx.count("C28.oracle.random")
@@ -605,10 +608,12 @@ def oracle_c27(ctx, budget_s):
     with _Tmp() as tmp:
         n = 0
         while ctx.elapsed() < t_end and n < (1500 if ctx.big() else 150):
-            nv = rng.randint(1, 8)
+            nv = rng.randint(1, 8) if n % 5 != 1 else 10
             vals = [gen_lits(rng, rng.randint(1, min(3, nv)), nv) for _ in range(rng.randint(1, 6))]
+            if nv == 10:
+                vals.append([rng.choice([10, -10]), rng.choice([1, -2, 3])])     # the last variable is number 10
             used = max(abs(l) for c in vals for l in c)
-            support = rng.randint(1, used)
+            support = rng.randint(1, used) if nv != 10 else used
             r = c27_case(vals, nv, support, tmp)
             n += 1
             ctx.count("C27.oracle")
